@@ -59,6 +59,9 @@ func init() {
 	// property oracle: the implementation's answer on the record of a structured hello; the driver
 	// answers with the SPECIFICATION's JA3 string of that hello.
 	registerOp("ja3spec", func(a []string) string { b, _ := ja3Impl(parseHelloToken(a).Record()); return b })
+	// the same oracle on the production entry point (fingerprint.JA3Fingerprint on the connection's metadata), in the
+	// order the operations come: whatever an earlier hello left behind must not show in a later one's header
+	registerOp("ja3fpspec", func(a []string) string { _, f := ja3Impl(parseHelloToken(a).Record()); return f })
 
 	register("ja3", "JA3: structured well-formed hellos, malformed mutations, exhaustive singleton values", func(c *ctx) {
 		emitHello := func(h *Hello, kind string) {
@@ -76,6 +79,7 @@ func init() {
 			c.tag("outcome:" + firstWord(r))
 			c.op("ja3fp " + hx(rec)) // header value (the checker applies MD5 to the model's string)
 			c.op("ja3spec " + tok)   // property oracle
+			c.op("ja3fpspec " + tok) // property oracle on the header value
 		}
 		single := func(v uint16, kind string) {
 			h := &Hello{RecVer: 0x0301, HsVer: 0x0303, Random: make([]byte, 32), Ciphers: []uint16{v}, Comp: []byte{0},
